@@ -1,6 +1,6 @@
 """Sensitivity / no-false-alarm self-test of the framework (not part of any check).
 
-usage: selftest/mutate.py [ID ...] [--neutral] [--runs N] [--only NAME]
+usage: selftest/mutate.py [ID ...] [--neutral] [--runs N | --frac F] [--only NAME]     (--frac: that fraction of each check's quick budget)
 
 For each mutant (a string replacement in a scratch copy of /repo/synapgrad, outside /repo
 and /verif) run the property's check with VERIF_REPO pointing at the copy and expect
@@ -34,8 +34,15 @@ def make_copy(edits):
     return d
 
 
+FRAC = [None]
+
+
 def run_check(prop, repo, runs, out):
     env = dict(os.environ, VERIF_REPO=repo, VERIF_OUT=out)
+    if FRAC[0] and not runs:
+        sys.path.insert(0, VERIF)
+        from sims import REGISTRY
+        runs = max(8, int(REGISTRY[prop].QUICK_RUNS * FRAC[0]))
     if os.environ.get("VERIF_MUTANT_MODE") != "neutral":
         env["VERIF_STOP_EARLY"] = "1"
     cmd = [os.path.join(VERIF, "bin", "check"), prop, "--no-selftest"]
@@ -59,6 +66,8 @@ def main(argv):
             only = next(it)
         elif a == "--neutral":
             pass
+        elif a == "--frac":
+            FRAC[0] = float(next(it))
         else:
             ids.append(a)
     bad = 0
